@@ -687,6 +687,12 @@ func build(h history) (*forest, string) {
 		if d := f.step(o); d != "" {
 			return f, d
 		}
+		// the observation queries are part of the history: every state was fully
+		// observed when it was first reached, so the replay observes it too (a
+		// lookup may leave traces in the implementation, e.g. a cache)
+		if d := f.observe(); d != "" {
+			return f, d
+		}
 	}
 	return f, ""
 }
@@ -725,7 +731,13 @@ func mutatingAlphabet(nlive, capScopes int) []op {
 	var ops []op
 	for _, o := range alphabet(nlive, capScopes) {
 		switch o.Kind {
-		case "Define", "Set", "DefineGlobal":
+		case "Define":
+			// both values: a binding that appears in an intermediate scope must be
+			// told apart from the one further out
+			if o.Name == "a" || (o.Name == "m" && o.Val == 1) {
+				ops = append(ops, o)
+			}
+		case "Set", "DefineGlobal":
 			if (o.Name == "a" || o.Name == "m") && o.Val == 1 {
 				ops = append(ops, o)
 			}
@@ -857,10 +869,10 @@ func search(c *common.Ctx, res *common.Result, depth, capScopes int, alpha func(
 
 func coverage(c *common.Ctx, r *common.Result) map[string]interface{} {
 	return map[string]interface{}{
-		"states":                        r.Counts["states"],
-		"transitions":                   r.Counts["transitions"],
-		"traces_validated_against_impl": r.Counts["transitions"],
-		"max_depth":                     r.GetMax("depth"),
+		"states":                         r.Counts["states"],
+		"transitions":                    r.Counts["transitions"],
+		"traces_validated_against_impl":  r.Counts["transitions"],
+		"max_depth":                      r.GetMax("depth"),
 		"max_depth_state_changing_calls": r.GetMax("deep:depth"),
 		"rule": "breadth-first search over histories of env API calls (≈92 calls per live scope: Define/Set/Get/Delete/DeleteGlobal/DefineGlobal/Addr/DefineType/DefineGlobalType/Type/NewEnv/NewModule/GetEnvFromPath(len≤2)/Copy/DeepCopy/symbol listings/String over names a,b,a.b,m) from four initial configurations (no external lookup, lookup on the root, lookup on a child, root whose value table was created and emptied again); " +
 			"then one level deeper over the state-changing calls only (Define/Set/DefineGlobal/Delete/DeleteGlobal on a and m, DefineType, NewEnv, NewModule, Copy, DeepCopy); states de-duplicated on the canonical form of the reference model's forest; every transition replays the history on fresh real scopes, executes the call on implementation and model, compares return value / error class and then the whole observable state (symbols, Get and Type of every pool name, on every live scope)",
